@@ -72,7 +72,7 @@ fn host_path(root: &Path, p: &[u8]) -> PathBuf {
 
 static JAIL_SEQ: std::sync::atomic::AtomicU64 = std::sync::atomic::AtomicU64::new(0);
 
-fn make_jail(ents: &[(Vec<u8>, JEnt)]) -> std::io::Result<PathBuf> {
+fn make_jail(ents: &[(Vec<u8>, JEnt)], owner: u32) -> std::io::Result<PathBuf> {
     let n = JAIL_SEQ.fetch_add(1, std::sync::atomic::Ordering::Relaxed);
     let root = PathBuf::from(format!("/tmp/rpmverif-c12-jail-{}-{}", std::process::id(), n));
     let _ = std::fs::remove_dir_all(&root);
@@ -91,6 +91,13 @@ fn make_jail(ents: &[(Vec<u8>, JEnt)]) -> std::io::Result<PathBuf> {
         match e {
             JEnt::Dir(m) | JEnt::File(m, _) => std::fs::set_permissions(&hp, std::fs::Permissions::from_mode(*m))?,
             _ => {}
+        }
+    }
+    if owner != 0 {
+        // an unprivileged extraction: the whole jail belongs to that user (lchown: links themselves, never their targets)
+        for (p, _) in ents {
+            let hp = CString::new(host_path(&root, p).as_os_str().as_bytes()).unwrap();
+            unsafe { libc::lchown(hp.as_ptr(), owner, owner); }
         }
     }
     Ok(root)
@@ -169,7 +176,7 @@ fn tree_listing(after: &Snap, dest: &[u8]) -> String {
 }
 
 /// run `pkg.extract(dest)` chrooted into `root` in a forked child; returns ok / err / panic / crash
-fn extract_in_jail(pkg: &rpm::Package, root: &Path, dest: &[u8], via: &str) -> &'static str {
+fn extract_in_jail(pkg: &rpm::Package, root: &Path, dest: &[u8], via: &str, umask: u32, uid: u32) -> &'static str {
     let croot = CString::new(root.as_os_str().as_bytes()).unwrap();
     let cslash = CString::new("/").unwrap();
     let cnull = CString::new("/dev/null").unwrap();
@@ -202,9 +209,10 @@ fn extract_in_jail(pkg: &rpm::Package, root: &Path, dest: &[u8], via: &str) -> &
                 libc::dup2(dn, 1);
                 libc::dup2(dn, 2);
             }
-            libc::umask(0o022);
+            libc::umask(umask as libc::mode_t);
             let mut code: u8 = b'x';
-            if libc::chroot(croot.as_ptr()) == 0 && libc::chdir(cslash.as_ptr()) == 0 {
+            if libc::chroot(croot.as_ptr()) == 0 && libc::chdir(cslash.as_ptr()) == 0
+                && (uid == 0 || (libc::setgroups(0, std::ptr::null()) == 0 && libc::setgid(uid) == 0 && libc::setuid(uid) == 0)) {
                 let r = std::panic::catch_unwind(std::panic::AssertUnwindSafe(|| pkg.extract(&dest_path)));
                 code = match r {
                     Ok(Ok(())) => b'o',
@@ -235,7 +243,7 @@ fn extract_in_jail(pkg: &rpm::Package, root: &Path, dest: &[u8], via: &str) -> &
     }
 }
 
-fn observe(pkg_bytes: &[u8], dest: &[u8], jail: &[(Vec<u8>, JEnt)], via: &str) -> String {
+fn observe(pkg_bytes: &[u8], dest: &[u8], jail: &[(Vec<u8>, JEnt)], via: &str, umask: u32, uid: u32) -> String {
     let pkg = match rpm::Package::parse(&mut &pkg_bytes[..]) {
         Ok(p) => p,
         Err(_) => return "parse-err".into(),
@@ -243,12 +251,12 @@ fn observe(pkg_bytes: &[u8], dest: &[u8], jail: &[(Vec<u8>, JEnt)], via: &str) -
     if !dest.starts_with(b"/") {
         return "bad-request".into();
     }
-    let root = match make_jail(jail) {
+    let root = match make_jail(jail, uid) {
         Ok(r) => r,
         Err(_) => return "jail-err".into(),
     };
     let before = snapshot(&root);
-    let out = extract_in_jail(&pkg, &root, dest, via);
+    let out = extract_in_jail(&pkg, &root, dest, via, umask, uid);
     let after = snapshot(&root);
     // restore permissions so that removal cannot fail, then remove the jail
     for (p, e) in &after {
@@ -263,21 +271,29 @@ fn observe(pkg_bytes: &[u8], dest: &[u8], jail: &[(Vec<u8>, JEnt)], via: &str) -
 pub fn eval(op: &str, a: &[&str]) -> Option<String> {
     match op {
         "extract" => {
-            if a.len() != 4 && a.len() != 5 {
+            if a.len() < 4 {
                 return Some("bad-request".into());
             }
-            let via = match a.get(4) {
-                None => "abs",
-                Some(v) => match v.strip_prefix("via=") {
-                    Some(x) if ["abs", "rel", "dotdot", "link"].contains(&x) => x,
-                    _ => return Some("bad-request".into()),
-                },
-            };
+            // options after the four positional arguments, in any order: how the caller spells the destination (`via=`),
+            // the process' umask (octal, default 022) and user (default 0 = root; otherwise the jail is chown'ed to that user
+            // and the child drops to it after `chroot`)
+            let (mut via, mut umask, mut uid) = ("abs", 0o022u32, 0u32);
+            for o in &a[4..] {
+                if let Some(x) = o.strip_prefix("via=") {
+                    match ["abs", "rel", "dotdot", "link"].iter().find(|v| **v == x) { Some(v) => via = v, None => return Some("bad-request".into()) }
+                } else if let Some(x) = o.strip_prefix("umask=") {
+                    match u32::from_str_radix(x, 8) { Ok(m) if m <= 0o777 => umask = m, _ => return Some("bad-request".into()) }
+                } else if let Some(x) = o.strip_prefix("uid=") {
+                    match x.parse() { Ok(u) => uid = u, Err(_) => return Some("bad-request".into()) }
+                } else {
+                    return Some("bad-request".into());
+                }
+            }
             let jail = match parse_jail(a[3]) {
                 Some(j) => j,
                 None => return Some("bad-request".into()),
             };
-            Some(observe(&arg_bytes(a[0]), &unhx(a[2]), &jail, via))
+            Some(observe(&arg_bytes(a[0]), &unhx(a[2]), &jail, via, umask, uid))
         }
         _ => None,
     }
@@ -964,6 +980,25 @@ pub fn gen(ctx: &mut Ctx) {
             s.named = named;
             ctx.req(&request(&hostile_pkg(&s), None, "/target", &jail));
         }
+        // the process' umask and user: the same builder-made package under other masks (root), and as an unprivileged user who
+        // owns the jail (set-id bits, sticky directories, nested implicit directories)
+        let files = vec![reg("/top", 0o644, b"top-level"), dir("/d", 0o2750), reg("/d/e/f", 0o4711, b"nested"), reg("/imp/li/cit/g", 0o600, b"implicit"),
+                         dir("/sticky", 0o1777), reg("/sticky/s", 0o444, b"ro"), lnk("/d/l", "../top")];
+        if let Some(p) = build_pkg(&mut src, &files, rpm::CompressionType::None) {
+            for um in [0u32, 0o002, 0o022, 0o027, 0o077, 0o133, 0o777] {
+                ctx.req(&format!("{} umask={:o}", request(&p, None, "/target", &jail), um));
+            }
+            for um in [0o022u32, 0o002, 0o077] {
+                ctx.req(&format!("{} umask={:o} uid=65534", request(&p, None, "/target", &jail), um));
+            }
+        }
+        // as an unprivileged user a directory entry without u+wx stops everything below it (set_permissions comes before
+        // the children): the model does not predict (it knows no EACCES), containment and no-panic are judged
+        let files = vec![dir("/ro", 0o555), reg("/ro/f", 0o644, b"below a read-only directory"), reg("/z", 0o644, b"after")];
+        if let Some(p) = build_pkg(&mut src, &files, rpm::CompressionType::None) {
+            // (the unprivileged run of this very package is corpus/C12/unprivileged-readonly-dir.case)
+            ctx.req(&request(&p, None, "/target", &jail));
+        }
         // builder-made packages with the destination spelled relatively / through ".." / through a link of the caller's
         let mut jl = jail.clone();
         jl.push((b("/work/zzroot"), JEnt::Link(b("/"))));
@@ -985,6 +1020,11 @@ pub fn gen(ctx: &mut Ctx) {
                 if let (Some(pc), Ok(raw)) = (build_pkg(&mut src, &files, rpm::CompressionType::Gzip), rpm::Package::parse(&mut &p[..])) {
                     ctx.req(&request(&pc, Some(&raw.content), "/target", &jail));
                 }
+            } else if i % 5 == 2 {
+                // another umask (it shows in the directories `create_dir_all` makes), every other time as an unprivileged user
+                let um = *ctx.rng.pick(&[0u32, 0o002, 0o027, 0o077, 0o007, 0o777, 0o222, 0o026]);
+                let uid = if i % 10 == 2 { " uid=65534" } else { "" };
+                ctx.req(&format!("{} umask={:o}{}", request(&p, None, "/target", &jail), um, uid));
             } else if i % 3 == 1 {
                 // every third builder-made package: the caller spells the destination in another way
                 let via = ["rel", "dotdot", "link"][(i / 3 % 3) as usize];
@@ -1000,6 +1040,7 @@ pub fn gen(ctx: &mut Ctx) {
     for i in 0..n_hostile {
         let mut s = if i % 3 == 2 { rand_link_attack(&mut ctx.rng) } else { rand_hostile(&mut ctx.rng) };
         s.named = i % 4 == 1;
-        ctx.req(&request(&hostile_pkg(&s), None, "/target", &jail));
+        let opt = match i % 9 { 4 => " uid=65534", 7 => " umask=0", 8 => " umask=77 uid=65534", _ => "" };
+        ctx.req(&format!("{}{}", request(&hostile_pkg(&s), None, "/target", &jail), opt));
     }
 }
